@@ -59,9 +59,9 @@ func profiles(prop string) []hist.Profile {
 	case "C04":
 		return []hist.Profile{
 			{Name: "lease", Ops: 140, Topics: 1, Subs: 3, POrdered: 0.1, PFilter: 0.1, PDL: 0, PRetry: 0.85, CallFaultPct: 8,
-				Keys: []string{""}, W: weights(map[string]int{"publish": 12, "pull": 22, "pull-due": 30, "ack": 4, "ack-all": 0, "modack": 16, "nack": 10, "jump": 16, "jump-long": 0, "seek-time": 0, "seek-snapshot": 0, "snapshot": 0, "delete-sub": 0, "delete-topic": 0, "create-topic": 0, "update-sub": 4, "sweep": 0, "job": 2, "stream": 8})},
+				Keys: []string{""}, W: weights(map[string]int{"publish": 12, "pull": 22, "pull-due": 30, "pull-wait": 8, "ack": 4, "ack-all": 0, "modack": 16, "nack": 10, "jump": 16, "jump-long": 0, "seek-time": 0, "seek-snapshot": 0, "snapshot": 0, "delete-sub": 0, "delete-topic": 0, "create-topic": 0, "update-sub": 4, "sweep": 0, "job": 2, "stream": 8})},
 			{Name: "lease-default", Ops: 160, Topics: 1, Subs: 2, PRetry: 0,
-				Keys: []string{""}, W: weights(map[string]int{"publish": 6, "pull": 10, "pull-due": 40, "ack": 2, "ack-all": 0, "modack": 10, "jump": 10, "jump-long": 0, "seek-time": 0, "seek-snapshot": 0, "snapshot": 0, "delete-sub": 0, "delete-topic": 0, "create-topic": 0, "update-sub": 0, "sweep": 0, "job": 0, "stream": 0, "bad": 1})},
+				Keys: []string{""}, W: weights(map[string]int{"publish": 6, "pull": 10, "pull-due": 40, "pull-wait": 8, "ack": 2, "ack-all": 0, "modack": 10, "jump": 10, "jump-long": 0, "seek-time": 0, "seek-snapshot": 0, "snapshot": 0, "delete-sub": 0, "delete-topic": 0, "create-topic": 0, "update-sub": 0, "sweep": 0, "job": 0, "stream": 0, "bad": 1})},
 		}
 	case "C05":
 		return []hist.Profile{
